@@ -90,6 +90,13 @@ def _gen_base(rng):
             base["faces"] = gen.hull_faces(gen.box(1.0, 1.0, 1.0))
             base["faces_are_convex"] = True
         return base
+    if mode == "generic" and rng.chance(0.06):
+        # almost axis-aligned hull: facets coplanar only to ~1e-9, which the constructor keeps
+        # apart and merge_faces merges - exports before and after the merge (directed below)
+        base = gen.gen_base(rng, "ConvexPolyhedron", rotate=False,
+                            noise=10 ** rng.uniform(-10, -8), scale=10 ** rng.uniform(-0.3, 1))
+        base["placement"] = "noisy"
+        return base
     if mode != "decimal" and rng.chance(0.008):
         # more than 1024 triangles in one file (a writer that works in batches)
         n = rng.randint(520, 640)
@@ -230,6 +237,15 @@ def gen_spec(seed, index, tier):
                              "arg": {"kind": "factor", "f": ops.choice([0.5, 2.0, 3.0])},
                              "pyseed": ops.u32(), "npseed": ops.u32()}},
                          mk(f2, ops.choice(["str", "Path"]))] + spec["steps"][:2]
+    if base.get("placement") == "noisy":
+        # directed history: export, merge the almost-coplanar facets, export again
+        f1 = ops.choice(FORMATS)
+        mk = lambda f: {"op": "export", "fmt": f, "via": ops.choice(["io", "save"]),  # noqa
+                        "path": "noisy.%s" % EXT[f], "pathkind": "str", "fs_faults": [],
+                        "pyseed": ops.u32(), "npseed": ops.u32()}
+        spec["steps"] = [mk(f1), {"op": "mutate", "fmt": "-", "m": {
+            "op": "call", "name": "merge_faces", "kwargs": {}, "inner": False,
+            "pyseed": ops.u32(), "npseed": ops.u32()}}, mk("OFF"), mk(ops.choice(FORMATS))]
     # a fifth of the runs export a polyhedron *with history*: mutators before and
     # between the exports (after each one the oracle re-reads the shape's geometry)
     if base.get("placement") in ("generic", "signed_perm") and ops.chance(0.2):
